@@ -260,6 +260,103 @@ class Kernel:
             return "corruption"
         return "runtimeError ?" + m
 
+    # ------------------------------------------------------------------ @inject
+    ANNOT = {
+        "plain": "T{ty}", "str": "'T{ty}'", "optional": "Optional[T{ty}]", "pep604": "T{ty} | None",
+        "str604": "'T{ty} | None'", "union": "Union[T{ty}, None]", "badunion": "Union[T{ty}, T{ty2}]",
+    }
+
+    def build_function(self, params: list[dict[str, Any]], is_async: bool) -> Any:
+        """params: name, kind (posonly|normal|kwonly), dflt (none|value|marker|uncalled), mname,
+        annot (form or None), ty."""
+        import asphalt.core as ac
+
+        def render(p: dict[str, Any]) -> str:
+            s = p["name"]
+            if p.get("annot"):
+                s += ": " + self.ANNOT[p["annot"]].format(ty=p.get("ty", 0), ty2=(p.get("ty", 0) + 1) % NTYPES)
+            d = p.get("dflt", "none")
+            if d == "value":
+                s += " = 5"
+            elif d == "marker":
+                s += f" = resource({p.get('mname', 'default')!r})"
+            elif d == "uncalled":
+                s += " = resource"
+            return s
+
+        pos = [render(p) for p in params if p["kind"] == "posonly"]
+        normal = [render(p) for p in params if p["kind"] == "normal"]
+        kwonly = [render(p) for p in params if p["kind"] == "kwonly"]
+        sig = ", ".join(pos + (["/"] if pos else []) + normal + (["*"] if kwonly else []) + kwonly)
+        src = f"{'async ' if is_async else ''}def fn({sig}):\n    return dict(locals())\n"
+        ns: dict[str, Any] = {f"T{i}": t for i, t in enumerate(TYPES)}
+        ns.update({"resource": ac.resource, "Optional": typing.Optional, "Union": typing.Union})
+        exec(src, ns)  # noqa: S102 - generated signature
+        return ns["fn"]
+
+    def do_decorate(self, cmd: dict[str, Any]) -> list[str]:
+        import warnings
+
+        import asphalt.core as ac
+
+        try:
+            fn = self.build_function(cmd["params"], cmd.get("async", False))
+        except SyntaxError as e:
+            return ["HARNESS-SYNTAX " + str(e)]
+        with warnings.catch_warnings(record=True) as wlist:
+            warnings.simplefilter("always")
+            try:
+                ac.inject(fn)
+            except TypeError:
+                return ["typeError"]
+        if any("injectable resources" in str(w.message) for w in wlist):
+            return ["warnNoInject"]
+        return ["ok"]
+
+    async def do_inject(self, cmd: dict[str, Any]) -> list[str]:
+        import asphalt.core as ac
+
+        params = []
+        for o in cmd["others"]:
+            params.append({"name": o["name"], "kind": o["kind"], "dflt": "value" if o["has_default"] else "none"})
+        for d in cmd["deps"]:
+            params.append({"name": d["param"], "kind": d.get("kind", "normal"), "dflt": "marker", "mname": d["name"],
+                           "annot": d.get("form", "plain"), "ty": d["ty"]})
+        # parameters without defaults must precede those with defaults among positional ones
+        params.sort(key=lambda p: (p["kind"] != "normal", p["kind"] == "normal" and p["dflt"] != "none"))
+        fn = ac.inject(self.build_function(params, cmd["async"]))
+        sentinels = {o["name"]: object() for o in cmd["others"] if not o["has_default"] or o.get("pass")}
+        args = [sentinels[p["name"]] for p in params if p["kind"] == "normal" and p["name"] in sentinels
+                and p["dflt"] == "none"]
+        kwargs = {n: v for n, v in sentinels.items() if n not in
+                  [p["name"] for p in params if p["kind"] == "normal" and p["dflt"] == "none"]}
+        c = None
+        try:
+            c = self.ctx_ids.get(id(ac.current_context()))
+        except ac.NoCurrentContext:
+            pass
+        tok = ACTIVE_CTX.set(c)
+        tok2 = ACTIVE_TASK.set(cmd["t"])
+        try:
+            try:
+                got = fn(*args, **kwargs)
+                if cmd["async"]:
+                    got = await got
+            except Exception as e:  # noqa: BLE001
+                return self.exc_out(e)
+        finally:
+            ACTIVE_CTX.reset(tok)
+            ACTIVE_TASK.reset(tok2)
+        out = [f"arg {d['param']}={val_name(got[d['param']])[4:] if got[d['param']] is not None else 'none'}"
+               for d in cmd["deps"]]
+        for n, v in sentinels.items():
+            if got.get(n) is not v:
+                out.append(f"PASSTHROUGH-BAD {n}")
+        for o in cmd["others"]:
+            if o["has_default"] and not o.get("pass") and got.get(o["name"]) != 5:
+                out.append(f"DEFAULT-BAD {o['name']}")
+        return out + ["called"]
+
     # ------------------------------------------------------------------ listeners
     async def listener(self, cid: int, ctx: Any, started: Any) -> None:
         async with ctx.resource_added.stream_events(max_queue_size=1000) as stream:
@@ -429,6 +526,10 @@ class Worker:
             w = kern.workers[cmd["t2"]] = Worker(kern, cmd["t2"])
             kern.tg.start_soon(w.main)      # inherits this task's contextvars
             return ["ok"]
+        if op == "decorate":
+            return kern.do_decorate(cmd)
+        if op == "inject":
+            return await kern.do_inject(cmd)
         ctx = kern.ctxs.get(cmd["c"])
         if ctx is None:
             return ["badOp"]
@@ -467,7 +568,7 @@ class Worker:
                 # run in a helper task so that a suspended lookup does not block the worker
                 async def helper() -> None:
                     ACTIVE_CTX.set(cmd["c"])
-                    ACTIVE_TASK.set(cmd["t"])
+                    ACTIVE_TASK.set(cmd.get("lid", cmd["t"]))
                     try:
                         v = await target.get_resource(TYPES[cmd["ty"]], cmd["name"], optional=cmd["opt"])
                         r = [val_name(v)]
@@ -477,7 +578,7 @@ class Worker:
                         r = kern.exc_out(e)
                     if kern.opidx == cmd["i"]:
                         kern.results[cmd["i"]] = r
-                    kern.helper_results.append((cmd["i"], cmd["t"], r))
+                    kern.helper_results.append((cmd["i"], cmd.get("lid", cmd["t"]), r))
 
                 kern.tg.start_soon(helper)
                 return None
